@@ -474,6 +474,234 @@ def f(x: fp.Real) -> fp.Real:
 ''', 'f', ['real'], ['semantics', 'inline', 'context'])
 
 
+# ---- simplify: shapes that stress the fixpoints and the side conditions of the three passes ---------------------
+prog('loop_tuple_carried', '''
+@fp.fpy
+def f(n: int, r: fp.Real) -> tuple[fp.Real, fp.Real]:
+    s = 0.0
+    last = 0.0
+    for _ in range(n):
+        a, b = (s, 1.0)
+        last = a
+        s = a + b + r
+    return (s, last)
+''', 'f', [('int', [0, 1, 2, 3]), 'real'], ['simplify', 'constfold', 'loop', 'tuple'])
+
+prog('while_tuple_carried', '''
+@fp.fpy
+def f(r: fp.Real) -> tuple[fp.Real, fp.Real]:
+    acc = 1.0
+    last = 0.0
+    i = 0
+    while i < 3:
+        prev, step = (acc, 2.0)
+        last = prev
+        acc = prev * step + r
+        i = i + 1
+    return (acc, last)
+''', 'f', ['real'], ['simplify', 'constfold', 'loop', 'tuple'])
+
+prog('saved_before_for', '''
+@fp.fpy
+def f(x: fp.Real, n: int) -> fp.Real:
+    x0 = x
+    for _ in range(n):
+        x = x + 1.0
+    return x - x0
+''', 'f', ['real', ('int', [0, 1, 3])], ['simplify', 'copy', 'loop'])
+
+prog('saved_before_while', '''
+@fp.fpy
+def f(x: fp.Real, y: fp.Real) -> tuple[fp.Real, fp.Real]:
+    start = x
+    i = 0
+    while i < 2:
+        x = x + y
+        i = i + 1
+    return (start, x)
+''', 'f', ['real', 'real'], ['simplify', 'copy', 'loop'])
+
+prog('saved_before_if', '''
+@fp.fpy
+def f(x: fp.Real, c: fp.Real) -> fp.Real:
+    x0 = x
+    if c > 0:
+        x = x + 1.0
+    return x - x0
+''', 'f', ['real', 'real'], ['simplify', 'copy', 'branch'])
+
+prog('signed_zero_table', '''
+@fp.fpy
+def f(i: int) -> fp.Real:
+    xs = [-0.0, 1.0, 0.0]
+    return xs[i]
+''', 'f', [('int', [0, 1, 2])], ['simplify', 'constfold', 'list', 'negzero'])
+
+prog('signed_zero_pair', '''
+@fp.fpy
+def f(x: fp.Real) -> tuple[fp.Real, fp.Real, fp.Real]:
+    z = 0.0 * -1.0
+    t = (z, 1.0 + 1.0)
+    a, b = t
+    return (a, b, x)
+''', 'f', ['real'], ['simplify', 'constfold', 'tuple', 'negzero'])
+
+prog('signed_zero_phi', '''
+@fp.fpy
+def f(c: fp.Real) -> fp.Real:
+    z = 0.0
+    if c > 0:
+        z = -0.0
+    return z
+''', 'f', ['real'], ['simplify', 'constfold', 'branch', 'negzero'])
+
+prog('signed_zero_loop_phi', '''
+@fp.fpy
+def f(n: int) -> fp.Real:
+    z = 0.0
+    for _ in range(n):
+        z = -z
+    return z
+''', 'f', [('int', [0, 1, 2])], ['simplify', 'constfold', 'loop', 'negzero'])
+
+prog('dead_phi_operand', '''
+@fp.fpy
+def f(z: fp.Real, c: fp.Real) -> fp.Real:
+    x = z * 3
+    y = x + 1
+    if c > 0:
+        x = 2
+    return y
+''', 'f', ['real', 'real'], ['simplify', 'dead', 'branch'])
+
+prog('dead_phi_operand_loop', '''
+@fp.fpy
+def f(z: fp.Real, xs: list[fp.Real]) -> fp.Real:
+    x = z + 1
+    y = x * 2
+    for v in xs:
+        x = v
+    return y
+''', 'f', ['real', ('list', [0, 1, 2])], ['simplify', 'dead', 'loop'])
+
+prog('const_list_alias', '''
+@fp.fpy
+def f(x: fp.Real) -> fp.Real:
+    xs = [1, 2]
+    ys = xs
+    ys[0] = 5
+    return xs[0] + x
+''', 'f', ['real'], ['simplify', 'constfold', 'alias', 'list'])
+
+prog('const_list_alias_loop', '''
+@fp.fpy
+def f(x: fp.Real, n: int) -> fp.Real:
+    xs = [1, 2]
+    ys = xs
+    for i in range(n):
+        ys[i] = x
+    return xs[0] + xs[1]
+''', 'f', ['real', ('int', [0, 1, 2])], ['simplify', 'constfold', 'alias', 'list', 'loop'])
+
+prog('callee_mutates_alias', '''
+@fp.fpy
+def helper(xs: list[fp.Real]) -> fp.Real:
+    ys = xs
+    ys[0] = 7
+    return 0
+
+@fp.fpy
+def f(x: fp.Real) -> fp.Real:
+    xs = [x, x]
+    t = helper(xs)
+    return xs[0]
+''', 'f', ['real'], ['simplify', 'dead', 'alias', 'list', 'inline'])
+
+prog('callee_mutates_in_loop', '''
+@fp.fpy
+def helper(xs: list[fp.Real], v: fp.Real) -> fp.Real:
+    for i in range(len(xs)):
+        xs[i] = xs[i] + v
+    return 0
+
+@fp.fpy
+def f(x: fp.Real, y: fp.Real) -> fp.Real:
+    xs = [x, y]
+    t = helper(xs, y)
+    return xs[0] + xs[1]
+''', 'f', ['real', 'real'], ['simplify', 'dead', 'alias', 'list', 'inline'])
+
+prog('loop_target_shadows_const', '''
+@fp.fpy
+def f(xs: list[fp.Real]) -> fp.Real:
+    x = 1.0
+    for x in xs:
+        pass
+    return x
+''', 'f', [('list', [0, 1, 2])], ['simplify', 'constfold', 'loop'])
+
+prog('loop_target_shadows_copy', '''
+@fp.fpy
+def f(y: fp.Real, xs: list[fp.Real]) -> fp.Real:
+    x = y
+    for x in xs:
+        y = y + x
+    return x + y
+''', 'f', ['real', ('list', [0, 1, 2])], ['simplify', 'copy', 'loop'])
+
+prog('comp_target_shadows_const', '''
+@fp.fpy
+def f(xs: list[fp.Real]) -> fp.Real:
+    x = 2.0
+    ys = [x + 1 for x in xs]
+    return sum(ys) + x
+''', 'f', [('list', [0, 1, 2])], ['simplify', 'constfold', 'comprehension'])
+
+prog('with_target_and_const', '''
+@fp.fpy
+def f(x: fp.Real) -> fp.Real:
+    k = 0.1875
+    with C3:
+        a = k + 1
+        k = x
+    with C4:
+        b = k + 1
+    return a + b
+''', 'f', ['real'], ['simplify', 'constfold', 'context', 'copy'])
+
+prog('copy_of_list_then_rebind', '''
+@fp.fpy
+def f(x: fp.Real, y: fp.Real) -> fp.Real:
+    a = [x, y]
+    b = a
+    a = [y, x]
+    b[0] = b[0] + 1
+    return a[0] + b[0]
+''', 'f', ['real', 'real'], ['simplify', 'copy', 'alias', 'list'])
+
+prog('nested_branch_consts', '''
+@fp.fpy
+def f(x: fp.Real, c: fp.Real) -> fp.Real:
+    k = 1
+    if c > 0:
+        k = 2
+        if x > 0:
+            k = 3
+    else:
+        k = 2
+    return x + k
+''', 'f', ['real', 'real'], ['simplify', 'constfold', 'branch'])
+
+prog('early_return_const', '''
+@fp.fpy
+def f(x: fp.Real) -> fp.Real:
+    k = 1
+    if x > 0:
+        return k + x
+    k = 2
+    return k - x
+''', 'f', ['real'], ['simplify', 'constfold', 'branch', 'return'])
+
 def namespace():
     """contexts the corpus programs refer to by name"""
     import fpy2 as fp
